@@ -83,7 +83,7 @@ static void sub_solve() {
         bool est = co == "smoothed_aggregation" && r.coin(0.4); if (est) { prm.put("precond.coarsening.estimate_spectral_radius", true); prm.put("precond.coarsening.power_iters", r.coin() ? 0 : 5); }
         prm.put("solver.type", sv); prm.put("solver.maxiter", maxiter); prm.put("solver.tol", tol); if (left) prm.put("solver.pside", "left");
         std::string cellname = co + ":" + rl + ":" + sv; std::string tag = cellname + (w.size > 1 ? ":np>1" : ":np=1");
-        Case c("solve", idx, J().n("ranks", w.size).s("coarsening", co).s("relax", rl).s("solver", sv).s("direct", ds).bl("repart", repart).s("family", p.family).n("n", p.A.n).s("rows", vfm::part_str(rp)).bl("budget_limited", budget).bl("left", left).bl("x0_zero", p.x0_zero).bl("allow_rebuild", rebuildable).n("coarse_enough", coarse_enough).n("over_interp", over_interp));
+        Case c("solve", idx, J().n("ranks", w.size).s("coarsening", co).s("relax", rl).s("solver", sv).s("direct", ds).bl("repart", repart).s("family", p.family).n("n", p.A.n).s("rows", vfm::part_str(rp)).bl("budget_limited", budget).bl("left", left).bl("x0_zero", p.x0_zero).bl("allow_rebuild", rebuildable).n("coarse_enough", coarse_enough).n("over_interp", over_interp).n("npre", prm.get("precond.npre", 1)).n("npost", prm.get("precond.npost", 1)).n("ncycle", prm.get("precond.ncycle", 1)));
         Csr<double> S = vfm::slice_rows(p.A, rp[w.rank], rp[w.rank + 1]); size_t nloc = S.n;
         std::vector<double> f(p.f.begin() + rp[w.rank], p.f.begin() + rp[w.rank + 1]), x(p.x0.begin() + rp[w.rank], p.x0.begin() + rp[w.rank + 1]);
         SolveOut o; std::unique_ptr<Solver> slv; g_rec.lv.clear(); g_rec.on = true;
@@ -111,6 +111,9 @@ static void sub_solve() {
         //-------------------------------------------------------------- rank 0
         double kappa = conv ? kappa_svd(p.A) : kappa_spd(p.A);
         TruthSpec ts; ts.solver = sv; ts.maxiter = maxiter; ts.tol = tol; ts.kappa = kappa; ts.left = left; ts.left_true = left_true; ts.must_converge = !budget && !conv;
+        // CG is defined for a symmetric positive definite preconditioner only; a V(npre != npost) cycle is non-symmetric by the caller's own choice of
+        // parameters, so the convergence clause is not asserted there (termination, rank-consistency and the truthful residual still are)
+        if (sv == "cg" && prm.get("precond.npre", 1) != prm.get("precond.npost", 1)) { ts.must_converge = false; vf::obs_sum("cg_nonsymmetric_cycle_cases"); }
         if (sv == "richardson" && !budget) { if (w.size > 1) ts.note = ref_converges ? "converges in " + std::to_string(ref_iters) + " iterations" : "does not converge either"; else { ts.note = "this is the single-rank run"; vf::obs_sum((std::isfinite(o.res) && o.res < tol) ? "richardson_np1_converges" : "richardson_np1_diverges"); } }
         if (same) check_truth(c, tag, p.A, p.f, gx, p.x0, o, ts);
         c.check(nlev >= 2, "harness:single-level:" + tag, "hierarchy has a single level; the case does not exercise the distributed setup", J().n("levels", nlev));
